@@ -172,7 +172,7 @@ class MarkerPlan(Plan):
                 "with ev/uses ghosts; definitional axioms generated from the real evaluate() bodies; z3 with deterministic instantiation; atom layer by the bounded stand-in"
     trusted_base = ["A-ENGINE", "law.C13 (== implies same meaning/class/variables) as proved by the C13 check for atoms, bounded for compounds",
                     "assumed contracts (guarded by the bounded part): the distributive branch of cnf/dnf; for version-valued atoms the bridge 'an atom holds iff its specifier view admits the environment's value' "
-                    "(C11 a) and the meaning of _normalize_python_version_specifier (string arithmetic); from_specifier by its C11 contract", "A-STDLIB set semantics: set(xs), issubset, intersection, difference, `in` decide membership by == with an element (hash consistent with ==: C13)",
+                    "(C11 a); _normalize_python_version_specifier and from_specifier by their C11 contracts (proved by the C11 check)", "A-STDLIB set semantics: set(xs), issubset, intersection, difference, `in` decide membership by == with an element (hash consistent with ==: C13)",
                     "A-HASHSEED", "A-TERM"]
     rtc = [("marker_algebra", None)]
 
@@ -331,15 +331,18 @@ def get_plan(pid):
         return plan
     if pid == "C11":
         t = "dep_logic.markers.single:MarkerExpression.from_specifier"
-        plan = JobsPlan("C11", [(t, "render_function", {"name": t})], rtc=["bridge"], level="other",
+        plan = JobsPlan("C11", [(t, "render_function", {"name": t}), ("C11.pyversion", "pyversion", {})], rtc=["bridge"], level="other",
                         technique="contract on MarkerExpression.from_specifier over structured versions (T-VER): for python_version / python_full_version and every single range with release-only "
                                   "bounds, every parsed ==P.* range and every parsed !=P.* / !=V union, the atom returned is None or carries an (operator, value) clause that denotes exactly the given specifier "
-                                  "(zero padding keeps the version, never touches ~= or wildcard operands) and installs that very specifier; z3 with deterministic instantiation; "
-                                  "atom -> specifier view vs evaluation and the in/not in expansion as bounded part",
+                                  "(zero padding keeps the version, never touches ~= or wildcard operands) and installs that very specifier; contract on _normalize_python_version_specifier over dotted "
+                                  "integer texts: for every operator and every value X / X.Y / X.Y.0 the result admits exactly the full versions A.B.C whose python_version A.B satisfies the atom (PEP 440 "
+                                  "on release-only versions written out: zero padding, lexicographic order, prefix match); _get_specifier hands the atom's own clause to the parser; z3; "
+                                  "evaluation against the specifier view and the in/not in expansion as bounded part",
                         trusted_base=["A-ENGINE", "A-VER", "A-PKG-PARSE (incl.: SpecifierSet(text) holds exactly the comma separated clauses of the text; appending '.0' to a release-only version text "
                                       "gives the same version with one more segment)", "C06 (rendering of a range) is re-derived inline, C04.leaf gives the meaning of the clause when it is parsed back", "A-TERM"],
                         assumptions=["bounds with pre/post/dev segments are outside the proof part (dot counting on such texts is not modelled): bounded only",
-                                     "_get_specifier (atom -> specifier, in/not in expansion) and _evaluate are string code: bounded part only (bridge suite: view vs evaluation on the interpreter grid)"],
+                                     "that _evaluate on a version atom returns what packaging's Specifier(op + value).contains(environment value) returns, and that this is the clause's PEP 440 meaning "
+                                     "(A-PKG-CONTAINS), is bounded (bridge suite: view vs evaluation on the interpreter grid); the in / not in expansion of _get_specifier is bounded (finding D14)"],
                         explanation="proof part: the specifier -> atom direction (the zero-padding logic the property names) for all versions / release lengths; bounded part: both directions on real objects "
                                     "against evaluate() over the interpreter grid")
         plan.own = lambda name: "C11." in name or "#raises." in name or "#cover" in name or "#subset" in name
